@@ -202,17 +202,24 @@ class Summ:
         keys = []
         per_entry = []
         KINDS = ('truth', 'some', 'cond', 'empty', 'is', 'shape', 'len', 'haskey', 'pat', 'educed')
+        outer_keys = set()
         for atoms in entries:
             req = []
+            seen_loop = False
             for a in atoms:
+                if a[0] in ('loop', 'via') and a[1] == loop_id:
+                    seen_loop = True
                 if a[0] in KINDS:
                     k = a[:-1]
                     req.append((k, a[-1]))
                     if k not in keys:
                         keys.append(k)
+                    if not seen_loop:
+                        outer_keys.add(k)
             per_entry.append(req)
-        # conditions shared by all entries with the same value are constants of the whole group
-        const = [k for k in keys if all(any(kk == k for kk, v in req) for req in per_entry) and len(set(v for req in per_entry for kk, v in req if kk == k)) == 1]
+        # conditions *outside* the loop shared by all entries with the same value are constants of the whole group
+        const = [k for k in keys if k in outer_keys and all(any(kk == k for kk, v in req) for req in per_entry)
+                 and len(set(v for req in per_entry for kk, v in req if kk == k)) == 1]
         keys = [k for k in keys if k not in const]
         per_entry = [[(k, v) for k, v in req if k not in const] for req in per_entry]
         # shape atoms of one base are mutually exclusive alternatives: treat each (base, shape) as its own boolean but
